@@ -96,6 +96,9 @@ type spec struct {
 	side    string   // "client" | "server"
 	actors  []string // S1 S2 CS CL CA NX (client) ; S1 S2 ERR (server)
 	stallAt int
+	// failOnce k > 0: the client's (k-1)-th transport write returns an error once, nothing of it is
+	// accepted, and the transport carries on
+	failOnce int
 }
 
 func (s spec) String() string {
@@ -105,6 +108,9 @@ func (s spec) String() string {
 	}
 	if s.fails {
 		e = " handler-fails-first"
+	}
+	if s.failOnce > 0 {
+		e += fmt.Sprintf(" write#%d-fails-once", s.failOnce-1)
 	}
 	return fmt.Sprintf("%s actors=%s stall=%d%s", s.side, strings.Join(s.actors, ","), s.stallAt, e)
 }
@@ -157,6 +163,9 @@ func scenario(cfg wl.Config, sp spec) *mc.Scenario {
 		}
 		env := wl.NewEnv(cfg, handler)
 		env.Cli.StallAt = sp.stallAt
+		if sp.failOnce > 0 {
+			env.Cli.Arm(tr.Fault{Kind: tr.ErrOnce, Write: true, K: sp.failOnce - 1})
+		}
 		ctx, cancel := context.WithCancel(context.Background())
 		vs.Go("client", func() {
 			stream, err := env.Conn.NewStream(ctx, "/w", enc.Bytes{})
@@ -351,6 +360,13 @@ func basePlans(tier string) []mc.Plan {
 		// buffer that frames do not fill evenly); the next RPC must still start on a frame boundary
 		for _, c := range [][]string{{"S1", "NX"}, {"S1", "S2", "NX"}, {"S1", "CL", "NX"}} {
 			ps = append(ps, mc.Plan{Scen: scenario(cfg, spec{side: "client", actors: c, stallAt: -1, fails: true}), Bounds: []int{0, 1}})
+		}
+		// a transport write that fails once (the transport carries on): what is handed to the transport
+		// afterwards must still continue the frame stream, not repeat or go back in it
+		for k := 1; k <= 3; k++ {
+			for _, c := range [][]string{{"S1", "S2"}, {"S1", "CS"}, {"S1", "CL"}, {"FL", "S1"}, {"S1", "NX"}} {
+				ps = append(ps, mc.Plan{Scen: scenario(cfg, spec{side: "client", actors: c, stallAt: -1, failOnce: k}), Bounds: []int{0, 1}})
+			}
 		}
 		if tier == "thorough" {
 			for _, c := range combos(clientActors, 4) {
